@@ -46,7 +46,7 @@ def strategy(tier):
     @st.composite
     def s(draw):
         spec = draw(gen.dataset(max_inputs=2, clim=False, flavor="det", core_max=4, extra_max=1, allow_drop=False,
-                                allow_all_missing=False))
+                                allow_all_missing=False, half_hours=draw(st.booleans())))
         return {"spec": spec, "opts": draw(time_opts(spec))}
     return s()
 
@@ -139,7 +139,7 @@ def csv_strategy(tier):
     @st.composite
     def s(draw):
         spec = draw(gen.dataset(max_inputs=2, clim=False, flavor="det", core_max=4, extra_max=1, allow_drop=False,
-                                allow_all_missing=False, allow_obsless=False))
+                                allow_all_missing=False, allow_obsless=False, half_hours=draw(st.booleans())))
         return {"spec": spec, "axis": draw(st.sampled_from(ALL_AXES)), "kind": draw(st.sampled_from(["text", "netcdf"]))}
     return s()
 
